@@ -368,6 +368,44 @@ fn enumerate6(seed: u64, run: u64, tier: Tier, slices: u64) -> Plan {
             }
         }
     }
+    // passwords are bound byte for byte: the same password with line endings, blanks, other case or
+    // another Unicode normalisation is another password (both directions)
+    if wk == WrapKind::Pw {
+        let base = "Pässw\u{f6}rd 42".as_bytes().to_vec();
+        let mut pairs: Vec<(Vec<u8>, Vec<u8>)> = Vec::new();
+        for suffix in [&b"\n"[..], b"\r\n", b"\r", b" ", b"\t", b"\n\n", b"\x0b", b"\x0c", "\u{a0}".as_bytes(), "\u{feff}".as_bytes()] {
+            let mut longer = base.clone();
+            longer.extend_from_slice(suffix);
+            pairs.push((base.clone(), longer.clone()));
+            pairs.push((longer, base.clone()));
+            let mut front = suffix.to_vec();
+            front.extend_from_slice(&base);
+            pairs.push((base.clone(), front.clone()));
+            pairs.push((front, base.clone()));
+        }
+        pairs.push((base.clone(), "Pa\u{308}ssw\u{f6}rd 42".as_bytes().to_vec())); // NFD spelling of the first a-umlaut
+        pairs.push((base.clone(), "p\u{e4}ssw\u{f6}rd 42".as_bytes().to_vec()));
+        pairs.push((base.clone(), "P\u{e4}ssw\u{f6}rd  42".as_bytes().to_vec()));
+        let mut wrapped: std::collections::BTreeMap<Vec<u8>, usize> = std::collections::BTreeMap::new();
+        for (wpw, upw) in pairs {
+            let blob5 = match wrapped.get(&wpw) {
+                Some(s) => *s,
+                None => {
+                    let s = b.blob_slot();
+                    let rng = b.healthy_rng();
+                    b.push(Step::Wrap { blob: s, node: 0, wk, key, with: SecretRef::Password { bytes: Bytes::hex(&wpw) }, params: params.clone(), rng });
+                    for &r in &readers {
+                        b.push(Step::Unwrap { blob: s, node: r, with: SecretRef::Password { bytes: Bytes::hex(&wpw) }, faults: vec![], as_kind: None });
+                    }
+                    wrapped.insert(wpw.clone(), s);
+                    s
+                }
+            };
+            for &r in &readers {
+                b.push(Step::Unwrap { blob: blob5, node: r, with: SecretRef::Password { bytes: Bytes::hex(&upw) }, faults: vec![], as_kind: None });
+            }
+        }
+    }
     // blobs written with degenerate or unusual cost parameters (whatever a writer accepts): still bound
     // to the password
     if wk == WrapKind::Pw {
